@@ -87,6 +87,21 @@ exec_chain(const vcase *vc, bool survey)
 			srv_ttl = v;
 		}
 	}
+	// round 7: "devtimeo hop ms" - finite send / receive timeouts on a device's sockets (an application that used the sockets
+	// before handing them to nng_device): a device runs until it is cancelled or a socket dies, however long it sits idle
+	for (int i = 2; i < vc->nops; i++) {
+		const vop *o = &vc->ops[i];
+		if (strcmp(o->name, "devtimeo") != 0)
+			continue;
+		int hop = (int) vop_arg(o, 0, 0), v = (int) vop_arg(o, 1, 50);
+		if (hop < 0 || hop >= n || v < 1)
+			continue;
+		H_OK(nng_socket_set_ms(dev[hop].front, NNG_OPT_RECVTIMEO, v));
+		H_OK(nng_socket_set_ms(dev[hop].back, NNG_OPT_RECVTIMEO, v));
+		H_OK(nng_socket_set_ms(dev[hop].front, NNG_OPT_SENDTIMEO, v));
+		H_OK(nng_socket_set_ms(dev[hop].back, NNG_OPT_SENDTIMEO, v));
+		vr_tag("device_socket_timeouts");
+	}
 	for (int i = 0; i < n; i++) {
 		H_OK(nng_aio_alloc(&dev[i].aio, NULL, NULL));
 		nng_device_aio(dev[i].aio, dev[i].front, dev[i].back);
@@ -116,6 +131,12 @@ exec_chain(const vcase *vc, bool survey)
 		const vop  *o = &vc->ops[i];
 		std::string nm = o->name;
 		vr_at(i, o->name);
+		if (nm == "idle") {
+			vs_sleep((int) vop_arg(o, 0, 100));
+			vs_settle();
+			vr_tag("idle_gap");
+			continue;
+		}
 		if (nm != "round")
 			continue;
 		// round: every client sends one request of the given size; the server answers all it gets; clients receive
@@ -444,9 +465,14 @@ gen_c13()
 		int nt = *pbt::range<int>(0, 3);
 		for (int i = 0; i < nt; i++)
 			t << "ttl " << *pbt::range<int>(0, n) << " " << *gen::element(1, 2, 3, 4, 8, 15, n, n + 1, n + 2 > 15 ? 15 : n + 2) << "\n";
+		if (n > 0 && *pbt::welem<int>({{2, 0}, {1, 1}}))
+			t << "devtimeo " << *pbt::range<int>(0, n - 1) << " " << *gen::element(20, 50, 100) << "\n";
 		int nr = *pbt::range<int>(1, 3);
-		for (int i = 0; i < nr; i++)
+		for (int i = 0; i < nr; i++) {
+			if (*pbt::welem<int>({{2, 0}, {1, 1}}))
+				t << "idle " << *gen::element(30, 120, 400) << "\n";
 			t << "round " << *gen::element(0, 1, 27, 28, 29, 60, 61, 1000, 4000) << "\n";
+		}
 	} else if (w == 2) {
 		t << "world 2 " << *gen::element(1, 2, 3, 8, 8, 15) << "\n";
 		auto ops = *gen::container<std::vector<std::string>>(gen::exec([]() {
@@ -479,7 +505,7 @@ main(int argc, char **argv)
 	sp.gen  = gen_c13;
 	sp.exec = exec_c13;
 	sp.rule = "worlds 0/1: REQ/REP and SURVEYOR/RESPONDENT chains through n = 0..17 nng_device hops over inproc with MAXTTL in {1,2,3,4,8,15,n,n+1,n+2} on "
-	          "chosen hops, 1-3 concurrent requesters, body sizes around the 32-byte headroom and up to 4 KB; oracle: every reply returns to exactly its "
+	          "chosen hops, finite socket timeouts on a device's sockets and idle gaps between rounds (round 7), 1-3 concurrent requesters, body sizes around the 32-byte headroom and up to 4 KB; oracle: every reply returns to exactly its "
 	          "requester with an unchanged body, and a request that exceeds any hop's MAXTTL is neither delivered nor answered. world 2: one req/rep device "
 	          "between raw wire peers: requests with 0..20 backtrace words (also unterminated), replies with up to 22 header words (also unterminated): "
 	          "forwarded/routed iff well-formed and within limits, bytes unchanged, malformed senders disconnected, never a crash. world 3: reflector loop "
